@@ -37,7 +37,7 @@ CHECKS = [
     ),
     _check(
         "C19",
-        "The real generator and role post-processor run against an in-memory file system seam: the full tree is generated in four zygote configurations (hash seed x cache size) and under shuffled directory listings and must be byte-identical to the reference generation; seeded runs then generate sub-trees, single pages in random order and synthetic documented trees (shapes the real tree lacks) after pre-histories (imports, counter jumps, cache evictions), repeated in one process, over stale output, and with I/O faults (ENOSPC/EIO/EACCES at the k-th write-open/write/close/mkdir/read-open/read/listdir) followed by recovery. Oracles: total; page set equals an independent 15-line model of 'documented'; each page written once; documented variables/functions of every page equal an independent reading of the source; no residual or mangled placeholder; renderings sit in their own member block; symbol tables and formula meaning equal those of the really imported module; post-processing changes nothing but the roles (independent normal form); every cross-reference target exists by getattr; synthetic trees add docstring association, package contents, rendering-as-written and regeneration-after-edit oracles; the file seam is a real TextIOWrapper over bytes with a simulated locale encoding and logical mtimes; evaluation flag default after every page and at the end plus behavioural probes; under faults the call may fail but never silently. Sampling over schedules/faults; exhaustive over the 735 real pages for the determinism and page-set oracles.",
+        "The real generator and role post-processor run against an in-memory file system seam: the full tree is generated in four zygote configurations (hash seed x cache size) and under shuffled directory listings and must be byte-identical to the reference generation; seeded runs then generate sub-trees, single pages in random order and synthetic documented trees (shapes the real tree lacks; 10 % of these two kinds in a process with SYMPY_USE_CACHE=no) after pre-histories (imports, counter jumps, cache evictions), repeated in one process, over stale output, and with I/O faults (ENOSPC/EIO/EACCES at the k-th write-open/write/close/mkdir/read-open/read/listdir) followed by recovery. Oracles: total; page set equals an independent 15-line model of 'documented'; each page written once; documented variables/functions of every page equal an independent reading of the source; no residual or mangled placeholder; renderings sit in their own member block; symbol tables and formula meaning equal those of the really imported module; post-processing changes nothing but the roles (independent normal form); every cross-reference target exists by getattr; synthetic trees add docstring association, package contents, rendering-as-written and regeneration-after-edit oracles; the file seam is a real TextIOWrapper over bytes with a simulated locale encoding and logical mtimes; evaluation flag default after every page and at the end plus behavioural probes; under faults the call may fail but never silently. Sampling over schedules/faults; exhaustive over the 735 real pages for the determinism and page-set oracles.",
         "Seam is at open()/os.walk/Path as module globals of the two build modules; the I/O stack below open() and Sphinx are not exercised. Byte equality only for equal histories; across histories the page skeleton and formula meaning. Trusted: SymPy numeric evaluation inside the meaning fingerprint.",
         "deterministic simulation: seeded schedules of page order / listing order / hash seed / pre-history with injected I/O faults on a simulated file system, byte and structure oracles, ddmin-minimised replay files",
         "DESIGN.md section 6",
